@@ -183,7 +183,8 @@ def font_case(draw):
             advs[k] = draw(st.sampled_from([1000, 600, 1400]))
     vbmode = draw(st.sampled_from(["region", "region", "square", "offset"]))
     comp_xf = [draw(fl(0.5, 1.2)), 0, 0, draw(fl(0.5, 1.2)), draw(ints(-100, 200)), draw(ints(-100, 200))]
-    return {"version": version, "npal": npal, "paints": paints, "advs": advs, "vbmode": vbmode, "comp": comp_xf, "unsupported": unsupported}
+    return {"version": version, "npal": npal, "paints": paints, "advs": advs, "vbmode": vbmode, "comp": comp_xf, "unsupported": unsupported,
+            "black_alpha": draw(st.sampled_from([1.0, 1.0, 1.0, 0.5, 0.25]))}
 
 
 @st.composite
@@ -239,6 +240,9 @@ def build_case_font(case):
     for i, n in enumerate(case["paints"]):
         cmap[0xE000 + i] = n
     pals = [PALETTE, PALETTE2, list(reversed(PALETTE[:3])) + [PALETTE[3]]][: case["npal"]]
+    if case.get("black_alpha", 1.0) != 1.0:
+        # the black entry the group-opacity composite uses is itself translucent: the opacity is Alpha x the entry's alpha
+        pals = [p[:3] + [(0, 0, 0, case["black_alpha"])] for p in [list(x) for x in pals]]
     paints = {k: _tuplify(p) for k, p in case["paints"].items()}
     adv = dict(case["advs"])
     adv.update({"sq": 1000, "tri": 1000, "ring": 1000, "comp": 1000, ".notdef": 500})
